@@ -93,6 +93,16 @@ Section RW.
   Proof. repeat split; reflexivity. Qed.
 End RW.
 
+(* rescale_box (wrapper/utils.py) on a bounded component (all four bounds finite): the advertised box is [min, max] and forward /
+   backward are the affine map rs_forward and its inverse rs_backward of Env.v, about which props/C13.v proves that the new bounds are
+   taken exactly onto the original bounds *)
+Theorem gen_rescale_eq_model lo hi mn mx x :
+  gen_rescale_new_low lo hi mn mx x = mn /\ gen_rescale_new_high lo hi mn mx x = mx /\
+  gen_rescale_forward lo hi mn mx x = rs_forward lo hi mn mx x /\
+  gen_rescale_backward lo hi mn mx x = rs_backward lo hi mn mx x.
+Proof. repeat split; reflexivity. Qed.
+
+Print Assumptions gen_rescale_eq_model.
 Print Assumptions gen_ow_eq_model.
 Print Assumptions gen_rw_eq_model.
 Print Assumptions gen_aw_eq_model.
